@@ -31,6 +31,7 @@ type chn struct {
 }
 
 type apu struct {
+	apuCounters
 	power  bool
 	ch     [4]chn
 	step   int // next sequencer step to run (0-7)
@@ -41,10 +42,66 @@ type apu struct {
 	sweepLive bool
 	// freqStale: the sweep unit may have written a new frequency back since NR13/NR14 were
 	// last written, so the reference no longer knows channel 1's frequency exactly
-	freqStale bool
+	staleLo, staleHi bool
 	// trigUnknown: the last trigger's overflow calculation depended on a stale frequency
 	trigUnknown bool
+	// the sweep unit itself, modelled exactly from a trigger with a known frequency onwards
+	sw struct {
+		exact   bool // the fields below mirror the hardware state
+		enabled bool
+		timer   int
+		shadow  int
+	}
+	negEver bool // some calculation was made in negate mode (NR10 negate-exit quirk)
 }
+
+// sweepCalc is the sweep unit's frequency calculation with its overflow check.
+func (a *apu) sweepCalc() int {
+	shift, neg := uint(a.nr10&7), a.nr10&8 != 0
+	d := a.sw.shadow >> shift
+	if neg {
+		a.negEver = true
+		return a.sw.shadow - d
+	}
+	n := a.sw.shadow + d
+	if n > 2047 {
+		if a.ch[0].on {
+			a.overflowOffs++
+		}
+		a.ch[0].on = false
+	}
+	return n
+}
+
+// sweepClock is the 128 Hz sweep step.
+func (a *apu) sweepClock() {
+	if !a.sw.exact {
+		if a.sweepLive {
+			a.staleLo, a.staleHi = true, true
+		}
+		return
+	}
+	if !a.sw.enabled {
+		return
+	}
+	a.sw.timer--
+	if a.sw.timer > 0 {
+		return
+	}
+	per, shift := int(a.nr10>>4)&7, int(a.nr10&7)
+	a.sw.timer = per
+	if per == 0 {
+		a.sw.timer = 8
+		return
+	}
+	n := a.sweepCalc()
+	if n < 2048 && shift > 0 {
+		a.freq1, a.sw.shadow = n, n
+		a.sweepCalc()
+	}
+}
+
+type apuCounters struct{ overflowOffs int64 }
 
 func newAPU() *apu {
 	a := &apu{}
@@ -59,9 +116,6 @@ func (a *apu) nextStepSkipsLength() bool { return a.step%2 == 1 }
 
 // tick advances one machine cycle.
 func (a *apu) tick() {
-	if a.sweepLive && a.ch[0].on {
-		a.freqStale = true
-	}
 	a.toStep--
 	if a.toStep > 0 {
 		return
@@ -78,6 +132,9 @@ func (a *apu) tick() {
 			}
 		}
 	}
+	if a.step == 2 || a.step == 6 {
+		a.sweepClock()
+	}
 	a.step = (a.step + 1) % 8
 }
 
@@ -88,7 +145,12 @@ func (a *apu) write(addr uint16, v uint8) {
 			for i := range a.ch {
 				a.ch[i].le, a.ch[i].dac, a.ch[i].on, a.ch[i].inexact = false, false, false, false
 			}
-			a.nr10, a.freq1, a.sweepLive, a.freqStale = 0, 0, false, false
+			// whether a sweep unit left enabled keeps running across a power cycle is not part of
+			// the statement: if it was enabled its state is unknown until the next trigger
+			if a.sw.enabled || !a.sw.exact {
+				a.sw.exact, a.sweepLive = false, true
+			}
+			a.nr10, a.freq1, a.staleLo, a.staleHi = 0, 0, false, false
 		}
 		if on && !a.power {
 			a.step = 0
@@ -145,11 +207,18 @@ func (a *apu) write(addr uint16, v uint8) {
 			if i == 0 {
 				per, shift, neg := int(a.nr10>>4)&7, int(a.nr10&7), a.nr10&8 != 0
 				a.sweepLive = per != 0 || shift != 0
-				if shift > 0 && !neg {
-					if a.freqStale {
+				if a.staleLo || a.staleHi {
+					a.sw.exact = false
+					if shift > 0 && !neg {
 						a.trigUnknown = c.on
-					} else if a.freq1+(a.freq1>>uint(shift)) > 2047 {
-						c.on = false
+					}
+				} else {
+					a.sw.exact, a.sw.enabled, a.sw.shadow, a.sw.timer = true, a.sweepLive, a.freq1, per
+					if per == 0 {
+						a.sw.timer = 8
+					}
+					if shift > 0 {
+						a.sweepCalc()
 					}
 				}
 			}
@@ -163,7 +232,12 @@ func (a *apu) write(addr uint16, v uint8) {
 			a.sweepLive = true
 		}
 		// leaving negate mode after a negate calculation can switch the channel off
-		a.ch[0].inexact = a.ch[0].inexact || a.sweepLive
+		if v&8 == 0 && a.negEver {
+			a.ch[0].inexact = true
+		}
+		if !a.sw.exact {
+			a.ch[0].inexact = a.ch[0].inexact || a.sweepLive
+		}
 	case 0xff12:
 		dacWrite(0, v&0xf8 != 0)
 	case 0xff17:
@@ -174,9 +248,10 @@ func (a *apu) write(addr uint16, v uint8) {
 		dacWrite(3, v&0xf8 != 0)
 	case 0xff13:
 		a.freq1 = a.freq1&0x700 | int(v)
-		a.freqStale = false
+		a.staleLo = false
 	case 0xff14:
 		a.freq1 = a.freq1&0xff | int(v&7)<<8
+		a.staleHi = false
 		nrx4(0, v)
 	case 0xff19:
 		nrx4(1, v)
@@ -246,7 +321,7 @@ func (w *world) compare(when string) bool {
 		if g == x {
 			continue
 		}
-		live := c.inexact || (i == 0 && w.ref.sweepLive)
+		live := c.inexact || (i == 0 && w.ref.sweepLive && !w.ref.sw.exact)
 		if live && x && !g {
 			// safety form: the channel went off earlier than the simple model says
 			c.on = false
@@ -334,7 +409,7 @@ func dacOn(ch int) uint8 {
 }
 
 func run(c *rig.Ctx) {
-	c.Require("calibrations", "comparisons", "length_expiries_exact", "extra_clock_cases", "random_ops", "second_wrap_runs", "rom_runs")
+	c.Require("sweep_runs", "sweep_runs_ending_in_overflow", "sweep_runs_channel_stays_on", "calibrations", "comparisons", "length_expiries_exact", "extra_clock_cases", "random_ops", "second_wrap_runs", "rom_runs")
 	// (1) structured: channel x length data x trigger/enable pattern x sequencer phase
 	lens := [][]int{{0, 1, 2, 32, 62, 63}, {0, 1, 2, 32, 62, 63}, {0, 1, 128, 250, 254, 255}, {0, 1, 2, 32, 62, 63}}
 	offsets := []int{0, 1, 2, 3, 5, 1000, 2044, 2045, 2046, 2047, 2048, 2049, 2050, 3000, 4093, 4094, 4095, 4096, 4097, 6000}
@@ -402,6 +477,7 @@ func run(c *rig.Ctx) {
 			return
 		}
 		c.Count("comparisons", w.cmp)
+		c.Count("ch1_off_by_sweep_overflow_exact", w.ref.overflowOffs)
 		c.Eval(w.cmp)
 		c.DistinctOnly(rig.Hash(uint64(i)))
 		if i%173 == 0 {
@@ -409,6 +485,54 @@ func run(c *rig.Ctx) {
 		}
 	})
 	c.MarkExhaustive("channel x 6 length data values x 4 trigger/enable patterns x 20 sequencer phase offsets")
+
+	// (1b) channel 1 sweep: every period x shift x direction x a set of frequencies, from a
+	// trigger with a known frequency; the status bit is compared with the exact sweep model in
+	// every machine cycle (the channel must go off at the overflowing calculation, not before
+	// and not later), with NR13/NR14 rewritten in mid-sweep in half the runs
+	freqs := []int{0x000, 0x001, 0x200, 0x3ff, 0x400, 0x401, 0x555, 0x6ff, 0x700, 0x7fe, 0x7ff}
+	c.Part("sweep", 8*8*2*int64(len(freqs)), func(i int64, r *rig.Rng) {
+		fi := int(i % int64(len(freqs)))
+		k := int(i / int64(len(freqs)))
+		per, shift, neg := k&7, (k>>3)&7, (k>>6)&1
+		f := freqs[fi]
+		w := newWorld(c, r.Intn(20000))
+		if w == nil {
+			return
+		}
+		ok := w.write(0xff12, 0xf0) && w.write(0xff11, 0x00) && w.write(0xff10, uint8(per<<4|neg<<3|shift)) &&
+			w.write(0xff13, uint8(f)) && w.write(0xff14, 0x80|uint8(f>>8))
+		if !ok {
+			return
+		}
+		before := w.ref.overflowOffs
+		rewriteAt := -1
+		if i%2 == 1 {
+			rewriteAt = 2048 + r.Intn(60000)
+		}
+		for cyc := 0; cyc < 150000; cyc++ {
+			if cyc == rewriteAt {
+				if !w.write(0xff13, r.U8()) || !w.write(0xff14, r.U8()&0x07) {
+					return
+				}
+			}
+			if !w.tick() {
+				return
+			}
+		}
+		if w.ref.overflowOffs > before {
+			c.Count("sweep_runs_ending_in_overflow", 1)
+		} else if w.ref.ch[0].on {
+			c.Count("sweep_runs_channel_stays_on", 1)
+		}
+		c.Count("sweep_runs", 1)
+		c.Count("comparisons", w.cmp)
+		c.Eval(w.cmp)
+		c.DistinctOnly(rig.Hash(uint64(i), 0x5eee))
+		if i%331 == 0 {
+			c.Sample(map[string]any{"class": "sweep", "period": per, "shift": shift, "negate": neg, "frequency": f, "rewrite_at": rewriteAt})
+		}
+	})
 
 	// (2) random schedules
 	nh := c.N(300, 6000)
@@ -455,6 +579,7 @@ func run(c *rig.Ctx) {
 			}
 		}
 		c.Count("comparisons", w.cmp)
+		c.Count("ch1_off_by_sweep_overflow_exact", w.ref.overflowOffs)
 		c.Eval(w.cmp)
 		c.DistinctOnly(rig.Hash(uint64(i), r.U64()))
 	})
@@ -477,6 +602,7 @@ func run(c *rig.Ctx) {
 		}
 		c.Count("second_wrap_runs", 1)
 		c.Count("comparisons", w.cmp)
+		c.Count("ch1_off_by_sweep_overflow_exact", w.ref.overflowOffs)
 		c.Eval(w.cmp)
 		c.DistinctOnly(rig.Hash(uint64(pre), uint64(ch)))
 	})
